@@ -2,7 +2,8 @@
 (* observation: systems = list of <<b, n>> integer pairs returned for the family; flags computed by the harness
    on the floating-point data: unit (normals and directions of unit length), orth (n.b = 0), parallel (the
    floating vectors are parallel to the integer ones), tensors (orientation tensor = direction (x) normal),
-   schmid (every Schmid factor of 26 lattice loading directions within [-1/2, 1/2]), ranks (every ordered
+   schmid (every Schmid factor of 26 lattice loading directions within [-1/2, 1/2]), schmidval (cubic lattices: one factor per
+   system, equal to (d.m)(d.n) for the unit loading direction d), ranks (every ordered
    pair of systems has a rank, self-interaction has its own rank), threw (the family was refused) *)
 EXTENDS SlipSystems, SlipSystemsHCP, Judge
 Check(name, b) == IF b THEN {} ELSE {name}
@@ -24,6 +25,7 @@ Fails(o) ==
        \cup Check("integer-orthogonality", \A i \in 1..Len(o.systems) : Dot(o.systems[i][1], o.systems[i][2]) = 0)
        \cup Check("unit-vectors", o.unit = 1) \cup Check("orthogonal-vectors", o.orth = 1) \cup Check("directions", o.parallel = 1)
        \cup Check("orientation-tensors", o.tensors = 1) \cup Check("schmid-factor-range", o.schmid = 1)
+       \cup Check("schmid-factor-values", o.schmidval = 1)
        \cup Check("interaction-ranks", o.ranksym = 1)
 ASSUME JudgeAll(Fails)
 =============================================================================
